@@ -167,6 +167,9 @@ pub fn all(data: &Value, args: &Vec<&Value>) -> Result<Value, Error> {
         _ => first_arg,
     };
 
+    // Only a literal array given directly in the rule holds rule text.
+    let items_are_rules = matches!(first_arg, Value::Array(_));
+
     let _new_arr: Vec<Value>;
     let items = match potentially_evaled_first_arg {
         Value::Array(items) => items,
@@ -211,12 +214,16 @@ pub fn all(data: &Value, args: &Vec<&Value>) -> Result<Value, Error> {
             if !res {
                 return Ok(false);
             };
-            let _parsed_item = Parsed::from_value(i)?;
-            // Evaluate each item as we go, in case we can short-circuit
-            let evaluated_item = _parsed_item.evaluate(data)?;
-            Ok(logic::truthy_from_evaluated(
-                &predicate.evaluate(&evaluated_item.into())?,
-            ))
+            // Elements of a literal array are rule text and are evaluated as
+            // we go, in case we can short-circuit. Elements of a collection
+            // that was computed are data and must not be interpreted.
+            let item: Value = if items_are_rules {
+                let _parsed_item = Parsed::from_value(i)?;
+                _parsed_item.evaluate(data)?.into()
+            } else {
+                i.clone()
+            };
+            Ok(logic::truthy_from_evaluated(&predicate.evaluate(&item)?))
         })
     })?;
 
@@ -248,6 +255,9 @@ pub fn some(data: &Value, args: &Vec<&Value>) -> Result<Value, Error> {
         }
         _ => first_arg,
     };
+
+    // Only a literal array given directly in the rule holds rule text.
+    let items_are_rules = matches!(first_arg, Value::Array(_));
 
     let _new_arr: Vec<Value>;
     let items = match potentially_evaled_first_arg {
@@ -293,12 +303,16 @@ pub fn some(data: &Value, args: &Vec<&Value>) -> Result<Value, Error> {
             if res {
                 return Ok(true);
             };
-            let _parsed_item = Parsed::from_value(i)?;
-            // Evaluate each item as we go, in case we can short-circuit
-            let evaluated_item = _parsed_item.evaluate(data)?;
-            Ok(logic::truthy_from_evaluated(
-                &predicate.evaluate(&evaluated_item.into())?,
-            ))
+            // Elements of a literal array are rule text and are evaluated as
+            // we go, in case we can short-circuit. Elements of a collection
+            // that was computed are data and must not be interpreted.
+            let item: Value = if items_are_rules {
+                let _parsed_item = Parsed::from_value(i)?;
+                _parsed_item.evaluate(data)?.into()
+            } else {
+                i.clone()
+            };
+            Ok(logic::truthy_from_evaluated(&predicate.evaluate(&item)?))
         })
     })?;
 
